@@ -101,8 +101,31 @@ def checkGen (c : Case) : CaseResult := Id.run do
         if !(nat! l[2]! == m.left && nat! l[3]! == m.right && num? l[4]! == some m.gap && (l[5]! == "1") == m.eq) then
           return { verdict := .diverge s!"containment cluster {cid} dim {dn}: impl {l} model ({m.left},{m.right},{ratToString m.gap})" }
       nclu := nclu + model.length
+  -- makeFeasible's alternatives for the most overlapping pair (flat cases)
+  let mut nalt := 0
+  if (c.get1 "noaltdone").isSome then
+    let alts := (c.get "noalt").toList
+    if !alts.isEmpty then
+      if alts.length != 4 then return { verdict := .diverge s!"{alts.length} alternatives offered, expected 4" }
+      let l0 := alts[0]!
+      let id2 := nat! l0[1]!; let id1 := nat! l0[2]!
+      let r1 := rects.getD id1 default; let r2 := rects.getD id2 default
+      if !(id1 < id2) || exempt id1 id2 || !(overlapsBoth 0 r1 r2) then
+        return { verdict := .diverge s!"alternatives offered for pair {id1},{id2} which is exempt / not overlapping / unordered" }
+      let model := shapeAlternatives id1 id2 (r1.width / 2) (r1.height / 2) (r2.width / 2) (r2.height / 2)
+      for (l, m) in alts.zip model do
+        let gapOk := match num? l[3]! with
+          | some g => absR (g - m.2.gap) ≤ (1 / 1000000000000 : Rat)
+          | none => false
+        if !(nat! l[0]! == m.1.toNat' && nat! l[1]! == m.2.left && nat! l[2]! == m.2.right && gapOk && l[4]! == "0") then
+          return { verdict := .diverge s!"alternative impl {l} model dim {m.1.toNat'} ({m.2.left},{m.2.right},{ratToString m.2.gap})" }
+      nalt := 4
+    else
+      -- nothing offered: no non-exempt pair may overlap in both dimensions
+      if !(offending rects exempt 0).isEmpty then
+        return { verdict := .diverge s!"no alternatives offered although pairs {offending rects exempt 0} overlap" }
   return { verdict := .ok, nontrivial := ncons > 0,
-           stats := [("gen.nonoverlap.constraints", ncons), ("gen.containment.constraints", nclu), ("gen.pairs", st.pairs.length)] }
+           stats := [("gen.alternatives", nalt), ("gen.nonoverlap.constraints", ncons), ("gen.containment.constraints", nclu), ("gen.pairs", st.pairs.length)] }
 
 def allFinite (c : Case) (key : String) : Bool :=
   (c.get key).all fun l => (l.extract 1 5).all fun s => match dbl? s with | some d => d.isFinite | none => false
